@@ -16,6 +16,10 @@ for f in PARSER_FNS:
                             harness='verus:Parser::' + f, tier='quick'))
 OBLIGATIONS.append(ob('C10.date.range', 'verif_frag::dateprecision::c13_precision', 'time-of-day block of parse_datetime (verbatim): a literal with day / hour / minute / second precision yields start = the given fields padded with 0 and finish = padded with 23:59:59 (closed interval it covers); a time of day outside 00:00:00..23:59:59 is rejected before chrono is called (no unwrap on None); for all captured values < 100', units=['dateprecision']))
 OBLIGATIONS.append(ob('C10.calc.total', 'verif_frag::calc::c15_calc_total', 'evaluator arithmetic does not panic on zero or fractional divisors for / and % (same harness as C15.calc.total)', units=['cmp', 'calc'], complete=False, bound='5 concrete operand pairs'))
+OBLIGATIONS.append(dict(id='C10.lexer.nopanic.next_lexem', engine='V', verus_fn='Lexer::next_lexem', verus_file='lexer', label=None, complete=True, bound=None, units=[], harness='verus:Lexer::next_lexem', tier='quick',
+    desc='real Lexer::next_lexem (extracted verbatim), every argument vector and every lexer state reachable from Lexer::new: no panic (unwrap, usize / isize arithmetic on the cursors), the loop and the `asc` recursion terminate (decreases: parts left, characters left in the part), and every token returned consumed input - so the token loop of Parser::parse terminates'))
+OBLIGATIONS.append(dict(id='C10.lexer.nopanic.new', engine='V', verus_fn='Lexer::new', verus_file='lexer', label=None, complete=True, bound=None, units=[], harness='verus:Lexer::new', tier='quick',
+    desc='real Lexer::new establishes the cursor invariant next_lexem requires (for every argument vector)'))
 CANARIES = []
 ASSUMPTIONS = ['termination is proved for the 19 parser methods under contract only', 'is_root_option_keyword is trusted (external_body: string prefix tests, total)']
-NOT_COVERED = ['parse_roots, Parser::parse, the lexer (not under contract)', 'termination of the lexer, of parse_roots and of the search itself', 'evaluator-side literal errors other than booleans (regex, dates)', 'process-level behaviour']
+NOT_COVERED = ['parse_roots and Parser::parse (not under contract; the token loop of Parser::parse terminates because every token consumes input - proved for the lexer, the loop itself is not in the verified text)', 'looks_like_date / looks_like_expression inside the lexer (regex, closures: external stubs)', 'termination of parse_roots and of the search itself', 'evaluator-side literal errors other than booleans (regex, dates)', 'process-level behaviour']
